@@ -1,6 +1,7 @@
 package gen
 
 import (
+	"strings"
 	"bytes"
 	"fmt"
 	"math"
@@ -130,6 +131,12 @@ func normEq(a, b reflect.Value) bool {
 			return a.Interface().(time.Time).Equal(b.Interface().(time.Time))
 		}
 		for i := 0; i < a.NumField(); i++ {
+			if k := a.Field(i).Kind(); (k == reflect.Float32 || k == reflect.Float64) && strings.Contains(string(a.Type().Field(i).Tag), ",optional") &&
+				a.Field(i).Float() == 0 && b.Field(i).Float() == 0 {
+				// the zero value of an optional non-pointer field is null: -0.0
+				// compares equal to zero, is written as null and reads back as +0.0
+				continue
+			}
 			if !normEq(a.Field(i), b.Field(i)) {
 				return false
 			}
